@@ -156,6 +156,12 @@ def check_contract(c, registry, seed: int, budget: int, time_budget: float = 20.
     except Exception as e:  # pragma: no cover
         out["error"] = f"setup failed: {e!r}"
         return out
+    import inspect
+
+    try:
+        kwonly = {n for n, p_ in inspect.signature(fn).parameters.items() if p_.kind == inspect.Parameter.KEYWORD_ONLY}
+    except (TypeError, ValueError):
+        kwonly = set()
     req = [Clause(r) for r in c.requires]
     ens = [Clause(e) for e in c.ensures]
     shapes = set()
@@ -196,11 +202,12 @@ def check_contract(c, registry, seed: int, budget: int, time_budget: float = 20.
             out["pre_rejected"] += 1
             continue
         olds = [e.eval_olds(env) for e in ens]
-        call_args = [a for n, a in zip(names, args) if n != "cls"]
+        call_args = [a for n, a in zip(names, args) if n != "cls" and n not in kwonly]
+        call_kwargs = {n: a for n, a in zip(names, args) if n in kwonly}
         raised = None
         result = None
         try:
-            result = fn(*call_args)
+            result = fn(*call_args, **call_kwargs)
             if hasattr(result, "__next__"):
                 result = list(result)
         except Exception as e:  # noqa
